@@ -149,7 +149,7 @@ impl Message {
                     );
                     return Err(Error::from(ErrorKind::InvalidData));
                 }
-                let result = ApiMessage::deserialize(&buffer);
+                let result = ApiMessage::deserialize(&buffer)?;
                 Ok(Message::ApplicationMessage(result))
             }
             13 => {
@@ -161,7 +161,7 @@ impl Message {
                     );
                     return Err(Error::from(ErrorKind::InvalidData));
                 }
-                let result = ApiMessage::deserialize(&buffer);
+                let result = ApiMessage::deserialize(&buffer)?;
                 Ok(Message::Result(result))
             }
             14 => {
@@ -173,7 +173,7 @@ impl Message {
                     );
                     return Err(Error::from(ErrorKind::InvalidData));
                 }
-                let result = ApiMessage::deserialize(&buffer);
+                let result = ApiMessage::deserialize(&buffer)?;
                 Ok(Message::Error(result))
             }
             15 => {
